@@ -46,6 +46,6 @@ for s in "${seeds[@]}"; do
     fi
   else
     echo "$s $prop MISSED $(echo "$out" | tail -1)"
-    [ $update = 1 ] && jq '.detected_by = null | .detection_note = "the claimed clauses do not cover this change (see DESIGN.md 8.6)"' "$d/meta.json" > "$d/meta.json.tmp" && mv "$d/meta.json.tmp" "$d/meta.json"
+    [ $update = 1 ] && jq '.detected_by = null | .detection_note = "the claimed clauses do not cover this change (see DESIGN.md 8.5)"' "$d/meta.json" > "$d/meta.json.tmp" && mv "$d/meta.json.tmp" "$d/meta.json"
   fi
 done
